@@ -588,3 +588,59 @@ Proof.
     exists secs, z1, b, extra, n. subst z'. auto 10.
   - left. pose proof (error_leaves_zone _ _ _ _ _ _ _ _ E). subst z. eauto.
 Qed.
+
+(* ---- every way an IXFR request can complete (TCP): up to date, incremental, or AXFR style ---- *)
+Theorem ixfr_done_classification : forall fin z0 ser ws rest z' n,
+  quiet z0 -> ttl_ok (v_ttl fin) ->
+  chunking tIXFR (soa_rr fin :: rest) ws -> Forall wire_rec rest ->
+  inbound_xfr z0 tIXFR (Some ser) false ws = (Done z', n) ->
+  (* the server has nothing newer: nothing is applied *)
+  (v_serial fin = ser /\ z' = z0) \/
+  (* difference sequences *)
+  (v_serial fin <> ser /\ exists secs z1 b extra,
+     rest = secs_stream secs ++ soa_rr b :: extra /\ secs <> [] /\ skel_ok ser fin secs /\
+     end_serial ser secs = v_serial fin /\ v_soa b = v_soa fin /\ apply_secs z0 secs = Some z1 /\
+     z' = zput soakey (v_ttl b, [v_soa b]) z1) \/
+  (* the whole zone *)
+  (v_serial fin <> ser /\ exists B b extra,
+     rest = B ++ soa_rr b :: extra /\ B <> [] /\ Forall okrec B /\ v_soa b = v_soa fin /\
+     z' = zput soakey (v_ttl b, [v_soa b]) (adds [] (erase B))).
+Proof.
+  intros fin z0 ser ws rest z' n Hq Httl Hch Hwr H.
+  destruct (Z.eq_dec (v_serial fin) ser) as [Es|Es].
+  - left. split; [exact Es|].
+    pose proof Hch as Hch0. apply chunking_first in Hch0. destruct Hch0 as (w & ws' & a & -> & Hr & Hw & Hws & Hcat).
+    unfold inbound_xfr, xfr_run in H. rewrite init_ixfr in H. cbn [Z.eqb tIXFR Pos.eqb] in H.
+    rewrite drive_cons in H by solve_req.
+    rewrite (first_message_ixfr z0 ser false w (soa_rr fin) a Hw Hr) in H by (split; reflexivity).
+    cbv zeta in H. change (r_data (soa_rr fin) mod two32) with (v_serial fin) in H.
+    rewrite Es, Z.eqb_refl in H.
+    destruct a as [|y a'].
+    + cbn in H. inversion H. reflexivity.
+    + exfalso. cbn [map loopT] in H. unfold step at 1 in H. cbn [done set_done] in H.
+      destruct a'; cbn in H; discriminate.
+  - right.
+    destruct (serial_lt (v_serial fin) ser) eqn:Hlt.
+    { exfalso. pose proof Hch as Hch0. apply chunking_first in Hch0. destruct Hch0 as (w & ws' & a & -> & Hr & Hw & Hws & Hcat).
+      unfold inbound_xfr, xfr_run in H. rewrite init_ixfr in H. cbn [Z.eqb tIXFR Pos.eqb] in H.
+      rewrite drive_cons in H by solve_req.
+      rewrite (first_message_ixfr z0 ser false w (soa_rr fin) a Hw Hr) in H by (split; reflexivity).
+      cbv zeta in H. change (r_data (soa_rr fin) mod two32) with (v_serial fin) in H.
+      apply Z.eqb_neq in Es. rewrite Es, Hlt in H. cbn in H. discriminate. }
+    destruct rest as [|x rest'].
+    + exfalso. pose proof Hch as Hch0. apply chunking_first in Hch0. destruct Hch0 as (w & ws' & a & -> & Hr & Hw & Hws & Hcat).
+      unfold inbound_xfr, xfr_run in H. rewrite init_ixfr in H. cbn [Z.eqb tIXFR Pos.eqb] in H.
+      rewrite drive_cons in H by solve_req.
+      rewrite (first_message_ixfr z0 ser false w (soa_rr fin) a Hw Hr) in H by (split; reflexivity).
+      cbv zeta in H. change (r_data (soa_rr fin) mod two32) with (v_serial fin) in H.
+      apply Z.eqb_neq in Es. rewrite Es, Hlt in H. cbn [andb] in H. rewrite after_tcp in H by reflexivity.
+      set (s := ist false z0 z0 ser (single (soa_rr fin)) true false) in *.
+      assert (Hrun : running s) by (repeat split; try reflexivity; discriminate).
+      destruct (cont_done_inv ws' a s z' n Hrun Hws H) as (c & y & extra & _ & _ & Hc & _).
+      rewrite Hcat in Hc. destruct c; discriminate.
+    + inversion Hwr as [|? ? Hx Hwr']; subst. destruct Hx as [[b [-> Hb]]|Hok].
+      * left. split; [exact Es|].
+        apply (ixfr_done_is_denotation fin z0 ser ws _ z' n Hq Httl Es Hlt Hch Hwr (ex_intro _ b (conj eq_refl Hb)) H).
+      * right. split; [exact Es|].
+        apply (axfr_style_done_is_denotation fin z0 ser ws x rest' z' n Httl Es Hlt Hch Hok Hwr' H).
+Qed.
